@@ -4,9 +4,9 @@ import engines.search as se
 from props._searchprop import SEARCH_TARGETS, SEARCH_TRUST, run_search_prop, replay_search
 
 PROP = 'C04'
-LEAN_TARGETS = SEARCH_TARGETS + ['MM.Props.C04Series', 'MM.Props.DiagTests', 'MM.Model.DiagTests', 'MM.Model.Numeric']
-THEOREMS = ['MM.Search.' + n for n in ('C04_score_of_design', 'C04_greedy_score', 'exhaustive_sub_evaluated')] + ['MM.Data.C04_series', 'MM.Data.C04_series_length', 'MM.Data.C04_window'] + ['MM.Numeric.corr_abs_le_one', 'MM.Numeric.dwStat_range', 'MM.Numeric.bbBounds_length', 'MM.Numeric.bbBounds_nonneg', 'MM.Numeric.bbBounds_symm', 'MM.Numeric.bbOk_scale', 'MM.Numeric.dwStat_scale', 'MM.Numeric.aaTest_contains_zero', 'MM.Numeric.aaTest_verdict', 'MM.Numeric.aaTest_interval', 'MM.Numeric.float_order_lt']
-TRUSTED_BASE = SEARCH_TRUST + ['aliasing of stored diagnostics objects (deepcopy) and float summation order are runtime behaviour: carried by the oracle and the push-log correspondence, not by a theorem (partial)']
+LEAN_TARGETS = SEARCH_TARGETS + ['MM.Props.C04Series', 'MM.Props.DiagTests', 'MM.Props.DiagTestsTie', 'MM.Model.DiagTests', 'MM.Model.Numeric']
+THEOREMS = ['MM.Search.' + n for n in ('C04_score_of_design', 'C04_greedy_score', 'exhaustive_sub_evaluated')] + ['MM.Data.C04_series', 'MM.Data.C04_series_length', 'MM.Data.C04_window'] + ['MM.Numeric.corr_abs_le_one', 'MM.Numeric.dwStat_range', 'MM.Numeric.bbBounds_length', 'MM.Numeric.bbBounds_nonneg', 'MM.Numeric.bbBounds_symm', 'MM.Numeric.bbOk_scale', 'MM.Numeric.dwStat_scale', 'MM.Numeric.aaTest_contains_zero', 'MM.Numeric.aaTest_verdict', 'MM.Numeric.aaTest_interval', 'MM.Numeric.float_order_lt', 'MM.Numeric.tie_corr_test', 'MM.Numeric.tie_dw_test', 'MM.Numeric.tie_bb_test', 'MM.Numeric.tie_aa_test']
+TRUSTED_BASE = SEARCH_TRUST + ['the comparisons deciding the four diagnostic tests (corr >= min_corr, dw_min < dw < dw_max, no |cum. residual| > bound, lower*upper < 0, prob <= threshold) are regenerated from tbrmmdiagnostics.py (T9) and proved to be those of the model (MM/Props/DiagTestsTie.lean)', 'aliasing of stored diagnostics objects (deepcopy) and float summation order are runtime behaviour: carried by the oracle and the push-log correspondence, not by a theorem (partial)']
 
 
 SUPPORTS_DEEPEN = True
